@@ -119,6 +119,12 @@ def run(ctx, what, n_cases, ref=False, gen_kwargs=None, cases=None):
         dist["corr" if c["rho"] else "nocorr"] += 1
         dist["pairs" if any(n[0] == "pair" for n in c["nodes"]) else "nopairs"] += 1
         dist["repeated" if c.get("raw") else "single-only"] += 1
+        if c.get("template"):
+            dist["template:" + c["template"]] += 1
+        if c.get("equal_pairs"):
+            dist["equal-pairs"] += 1
+        if any(unbits(b) in exprgen.SPECIAL_VALUES for b in c["vals"][:c["n_meas"]]):
+            dist["special-central-value"] += 1
         if "fail" in m:
             failures.append({"signature": "model-error", "kind": "disagreement",
                              "what": "model driver: " + m["fail"], "input": pretty(c)})
